@@ -81,6 +81,7 @@ def run(run):
     run.rule("R2", "flag agreement between query name and MemorySegment flag field; writable => unknown content / error")
     run.rule("R3", "read(): bytes reversed iff little endian, accumulated with Piece(acc, next)")
     run.rule("R4", "MemorySegment constructors fill *_flag from the same permission's accessor/mask")
+    run.rule("R5", "segment scans visit every segment: early exits only from inside a successful containment test")
 
     def r1():
         nconds = 0
@@ -151,6 +152,44 @@ def run(run):
         run.floor("segment containment conditions", nconds, 6)
 
     run.guarded("R1", r1)
+
+    def r5():
+        """segment scans are order independent: a loop over memory_segments is left early
+        only from inside a successful containment test"""
+        n = 0
+        for fn in F.find_fns(adt="RuntimeMemoryImage", trait=""):
+            sy = S.Sym(F)
+            env = {}
+            sy.term(fn["body"], env)
+            for (node, pat, it, body) in T.for_loops(fn["body"]):
+                itt = sy.ev(it, env)
+                if not any(isinstance(x, tuple) and x and x[0] == "field" and x[2] == "memory_segments" for x in S.subterms(itt)):
+                    continue
+                if any(is_call(x, ("iter_mut",)) for x in S.subterms(itt)):
+                    continue
+                n += 1
+                bad = []
+                for ex, conds in T.paths_to(body, lambda y: y.get("k") in ("Break", "Return", "Continue")):
+                    # exits of inner loops do not leave the scan
+                    inner_loop = any(c[0] == "arm" and c[1].get("ms", "").startswith("ForLoopDesugar") for c in conds)
+                    if inner_loop and ex.get("k") != "Return":
+                        continue
+                    inside = False
+                    for cd in conds:
+                        if cd[0] != "if":
+                            continue
+                        ct = sy.ev(cd[1], env)
+                        for cj in conjuncts(ct):
+                            r = rel(cj)
+                            if r and seg_base(r[0]) is not None and cd[2] is True:
+                                inside = True
+                    if not inside:
+                        bad.append(ex)
+                key = "%s|scan-exits-only-on-hit" % fn["name"]
+                run.check("R5", key, not bad, "the scan over memory_segments is left (%s) outside a successful containment test: the result depends on the order of the segments (nothing sorts them; bare-metal images list flash before RAM)" % ", ".join(sorted({b["k"] for b in bad})), F.loc(node))
+        run.floor("segment scans", n, 6)
+
+    run.guarded("R5", r5)
 
     def find_ites(t):
         return [x for x in S.subterms(t) if isinstance(x, tuple) and x and x[0] == "ite"]
@@ -268,7 +307,7 @@ def run(run):
                 # acc must be the variable that is re-assigned with the result
                 acc_id = a0.get("id") if a0.get("k") == "Var" else None
                 assigned = [n for n in T.walk(fn["body"]) if n.get("k") == "Assign" and T.var_id(n["l"]) == acc_id and any(y is c for y in T.walk(n["r"]))]
-                new_from_loop = any(isinstance(x, tuple) and x[0] == "field" and x[2] == "Some.0" for x in S.subterms(a2))
+                new_from_loop = any(isinstance(x, tuple) and x and x[0] == "elem" for x in S.subterms(a2))
                 ok = bool(acc_id is not None and assigned and new_from_loop)
                 run.check("R3", "read|piece-accumulator-is-most-significant", ok, "Piece(acc, next_byte): the accumulator (bytes read so far) must be the most significant operand; found bin_op(%s, Piece, %s)" % (T.show(args[0]), fmt(a2)), F.loc(c))
         if ok is None:
